@@ -220,6 +220,9 @@ def run_one(w, m, slow_ok=True):
         if p.returncode == 1 and "VIOLATION" in p.stdout:
             res.update(status="killed", by=c, first=next((l.strip() for l in p.stdout.split("\n") if l.startswith("  ")), "")[:200])
             break
+        if p.returncode not in (0, 1, 2, 124) or (p.returncode == 1 and "VIOLATION" not in p.stdout):
+            res.update(status="driver-crash", by=c, first=p.stdout.strip().split("\n")[-1][:200])
+            break
         if p.returncode == 124:
             res.update(status="timeout", by=c)
             break
